@@ -10,7 +10,7 @@ import numpy as _numpy
 
 from lib import Case
 from tape import Tape, TapeExhausted, TapeMismatch
-from deap import base, tools
+from deap import base, creator, tools
 from deap.tools import emo
 
 ANCHORS = [("deap/tools/selection.py", ["selRandom", "selBest", "selWorst", "selTournament", "selRoulette",
@@ -23,7 +23,14 @@ RULE = ("exhaustive part: every population of n<=3 single-objective individuals 
         "swept with all 64 draws j/64, SUS on the same wheels for every k<=8 and 7 draws; flavoured streams (every "
         "operator they apply to, independent of the seed): near-tie (values 1, 1+-2^-21, 1+-2^-50, 1+2^-52, 1-2^-53 / "
         "1+-2^-30 where the code adds and averages; exact bit patterns, the Rat model compares exactly), fit_attr=other "
-        "(individuals carry a decoy `fitness` with another order and another total), the same object listed twice, "
+        "(individuals carry a decoy `fitness` with another order and another total), the same object listed at several "
+        "positions for EVERY operator incl. roulette / universal sampling (mating pools; every wheel of n<=3 positions over "
+        "{1,2,3} with every aliasing pattern swept with 64 draws and sampled for k in {1,2,3,4,5,8}; clauses read per position, "
+        "identity observed per object), HISTORIES (2-6 selector calls in one process on a fresh family of 2-4 fitness classes "
+        "- base / derived through creator.create, class statements and type(), weights overridden with other signs or "
+        "inherited, base-first and derived-first - per selector group lexicase / best-worst / tournaments / wheel / dcd / mixed; "
+        "calls re-use the same population objects with another selector, k, fit_attr name or after re-evaluation; the model "
+        "side is ONE `hist` request run by Selection.runHistory with the class table and one threaded tape), "
         "negative values, genomes of length 0 / numpy-array individuals (falsy or non-boolean truth value); large populations (n = 13..1025 around powers of two, heavy ties on the first objective, k "
         "around n/4, n/2, n); random part: n<=12, 1-4 objectives of mixed weight signs over values {0,1,2,(3)} (many ties), "
         "k in 0..15, tournsize 1..5, parsimony size {1,1.4,2}, both orders, epsilon {0,1/2,2}, crowding distances incl. "
@@ -44,7 +51,9 @@ TRUSTED = ["IEEE-754: the test inputs are small integers / dyadic fractions, for
            "returns the first maximum, random.uniform(a,b) = a+(b-a)*random(), numpy.median = mean of the two middle "
            "elements; harness/tape.py reports the random module's results faithfully",
            "crowding distance inf is transported as 10^6 (only compared with < and >)"]
-ASSUMPTIONS = ["populations of 1..N evaluated individuals of one fitness class with non-zero weights; k >= 0 "
+ASSUMPTIONS = ["an 'individual' of a population is a POSITION of the list (an object listed at m positions owns m wheel "
+               "sectors / may be returned 2m times by the crowding tournament; identity observes the total of its positions)",
+               "populations of 1..N evaluated individuals of one fitness class with non-zero weights; k >= 0 "
                "(crowding tournament: 4 | k <= n); tournament sizes >= 1; parsimony size in [1,2]; epsilon >= 0",
                "roulette / universal sampling: strictly positive, maximised first objective with exactly representable "
                "sums; universal sampling's uniform draw is not exactly 0.0 (F13: the boundary draw start = 0.0, "
@@ -52,7 +61,9 @@ ASSUMPTIONS = ["populations of 1..N evaluated individuals of one fitness class w
                "compared model-vs-implementation only)"]
 EXPLANATION = ("Theorems C06.* hold for every population, k and tape over exact rationals; Core/Selection.lean is "
                "replayed against the real operators with the tape of their own random draws and results compared as "
-               "input indices (identity by `is`); the statement is evaluated as an oracle on the real result.")
+               "input indices (identity by `is`); the statement is evaluated as an oracle on the real result.  Sessions of several "
+               "calls over base / derived fitness classes are replayed in one process against Selection.runHistory "
+               "(theorem sel_history_independent: a call's result does not depend on what was called before).")
 
 INF_TOKEN = "1000000"
 
@@ -110,12 +121,13 @@ def canon_map(d):
     return d.get("alias") or list(range(len(d["vals"])))
 
 
-def build_pop(d):
-    """`attr` = name of the fitness attribute the operator is told to use (fit_attr); when it is not
+def build_pop(d, F=None):
+    """`F` = the fitness class to use (a class of a history's family; default: the cached class of the weights).
+    `attr` = name of the fitness attribute the operator is told to use (fit_attr); when it is not
     "fitness" the individuals also carry a decoy `fitness` with a different order.  `alias[i] = j < i`
     puts the very object of position j at position i as well."""
     w = [Fr(x) for x in d["w"]]
-    F = fit_class(w)
+    F = F or fit_class(w)
     attr = attr_of(d)
     pop = []
     sizes = d.get("sizes")
@@ -354,27 +366,42 @@ def oracle(d, w, pop, res, idx, draws, tape_ok=True):
         # layout-agnostic: whatever the order of the wheel, the draws that pick individual i lie in one
         # half-open interval of length f_i/S, so they are contiguous among the sorted draws of this call
         # and span less than f_i/S
+        # ... per POSITION.  An object listed at m positions owns m such sectors (identity cannot tell which one
+        # was hit): the sorted draws that pick it fall into runs (no draw of another object in between); the
+        # draws of one run are covered by sectors of this object only, a sector never serves two runs, so the
+        # minimal number of half-open intervals of length f_i/S covering each run, summed, is at most m.
+        slots = {}
+        for i in cm:
+            slots[i] = slots.get(i, 0) + 1
         pairs = sorted(zip(rs, idx))
-        seen_done = set()
+        runs = {}
         prev = None
         for r, wi in pairs:
             if wi != prev:
-                if wi in seen_done:
-                    return "draws picking individual %d do not form an interval of the unit interval" % wi
-                if prev is not None:
-                    seen_done.add(prev)
+                runs.setdefault(wi, []).append([])
                 prev = wi
-        for i in set(idx):
-            mine = [r for r, wi in pairs if wi == i]
-            if not (mine[-1] - mine[0] < f[i] / s):
-                return "individual %d is picked over a stretch %s wider than its share %s" % (i, mine[-1] - mine[0], f[i] / s)
+            runs[wi][-1].append(r)
+        for wi, rr in runs.items():
+            need = 0
+            for run in rr:
+                start = None
+                for r in run:
+                    if start is None or not (r - start < f[wi] / s):
+                        need += 1
+                        start = r
+            if need > slots[wi]:
+                if slots[wi] == 1 and len(rr) > 1:
+                    return "draws picking individual %d do not form an interval of the unit interval" % wi
+                return ("individual %d (listed at %d position(s), share %s each) is picked over a stretch of the "
+                        "unit interval wider than its share" % (wi, slots[wi], f[wi] / s))
         if d.get("sweep"):
             den = d["den"]
-            for i in range(n):
+            for i in set(cm):
                 c = sum(1 for x in idx if x == i)
                 share = Fr(den) * f[i] / s
-                if not (floor(share) <= c <= ceil(share)):
-                    return "individual %d picked by %d of %d equally spaced draws, share %s" % (i, c, den, share)
+                if not (slots[i] * floor(share) <= c <= slots[i] * ceil(share)):
+                    return ("individual %d (listed at %d position(s)) picked by %d of %d equally spaced draws, "
+                            "share per position %s" % (i, slots[i], c, den, share))
         return None
     if op == "sus":
         if k == 0:
@@ -386,11 +413,17 @@ def oracle(d, w, pop, res, idx, draws, tape_ok=True):
         dr = draws[0]
         if Fr(dr[3]) == Fr(dr[1]):
             return None          # boundary draw start == 0.0: F13, outside the oracle stream
-        for i in range(n):
+        # per position floor or ceil of k times its share; an object listed at m positions is observed
+        # (by identity) with the total of its positions
+        slots = {}
+        for i in cm:
+            slots[i] = slots.get(i, 0) + 1
+        for i in set(cm):
             c = sum(1 for x in idx if x == i)
             share = Fr(k) * f[i] / s
-            if not (floor(share) <= c <= ceil(share)):
-                return "individual %d selected %d times, k*share = %s" % (i, c, share)
+            if not (slots[i] * floor(share) <= c <= slots[i] * ceil(share)):
+                return ("individual %d (listed at %d position(s)) selected %d times, k*share per position = %s"
+                        % (i, slots[i], c, share))
         return None
     if op == "dtourn":
         fs = d["fs"]
@@ -472,7 +505,7 @@ def oracle(d, w, pop, res, idx, draws, tape_ok=True):
         return None
     if op == "dcd":
         for i in set(idx):
-            if idx.count(i) > 2:
+            if idx.count(i) > 2 * cm.count(i):          # none more than twice, per position of the list
                 return "individual %d selected %d times by the crowding tournament" % (i, idx.count(i))
         if not tape_ok or kinds(draws)[:2] != ["sample", "sample"] or any(x != "random" for x in kinds(draws)[2:]):
             return TAPE_MISFIT % "two samples, then coins"
@@ -486,15 +519,21 @@ def in_quantifier(d, n):
     if n == 0:
         return False
     if op == "dcd":
-        return k <= n and k % 4 == 0 and "alias" not in d
+        return k <= n and k % 4 == 0
     return not d.get("edge", False)
 
 
 def line_for(d, w, pop, draws):
+    return " ".join(["C06"] + req_tokens(d, w, pop, draws))
+
+
+def req_tokens(d, w, pop, draws, wtok=None):
+    """the request (after the `C06` token); `wtok` replaces the weights token (histories: `@`, the model resolves
+    the weights from the class table)"""
     op, k = d["op"], d["k"]
     tp = tape_tokens(draws)
     pt = pop_token(pop, attr_of(d))
-    head = ["C06"]
+    head = []
     if "alias" in d:
         head += ["canon", ilist(canon_map(d))]
     if op in ("best", "worst"):
@@ -504,20 +543,20 @@ def line_for(d, w, pop, draws):
     elif op == "tourn":
         head += ["tourn", pt, str(k), str(d["ts"])]
     elif op in ("roulette", "sus"):
-        head += [op, slist(w), pt, str(k)]
+        head += [op, wtok or slist(w), pt, str(k)]
     elif op == "dtourn":
         head += ["dtourn", pt, ilist(len(x) for x in pop), str(k), str(d["fs"]), sfr(Fr(float(d["ps"]))),
                  "1" if d["ff"] else "0"]
     elif op in ("lex", "epslex", "autolex"):
         rule = {"lex": "exact", "autolex": "auto"}.get(op) or "eps:" + sfr(Fr(d["eps"]))
-        head += ["lex", rule, slist(w), pt, str(k)]
+        head += ["lex", rule, wtok or slist(w), pt, str(k)]
     elif op == "dcd":
         cds = ",".join(INF_TOKEN if x.fitness.crowding_dist == float("inf") else sfr(Fr(x.fitness.crowding_dist))
                        for x in pop) or "-"
         head += ["dcd", pt, cds, str(k)]
     else:
         raise ValueError(op)
-    return " ".join(head + tp)
+    return head + tp
 
 
 def tag_for(d, pop, draws, res):
@@ -571,6 +610,8 @@ def run_impl(d, pop, forced):
 
 
 def evaluate(d):
+    if d["op"] == "hist":
+        return evaluate_hist(d)
     op, k = d["op"], d["k"]
     w, pop = build_pop(d)
     n = len(pop)
@@ -680,18 +721,19 @@ def rand_pop(rng, n=None, nobj=None, flavour=None, arith=False):
     return w, vals
 
 
-def rand_wheel(rng, n=None, mult=1, near=False, large=False):
+def rand_wheel(rng, n=None, mult=1, near=False, large=False, nobj=None):
     """strictly positive maximised first objective (integers), optionally a second objective"""
     if large and n is None:
         n = rng.choice(LARGE_N + [rng.randint(13, 200)])
     n = n if n is not None else rng.choice([1, 2, 2, 3, 4, 5, 6, 8, 12])
     two = rng.random() < 0.3
-    w = [rng.choice(["1", "2", "1/2"])] + ([rng.choice(["1", "-1"])] if two else [])
+    extra = (1 if two else 0) if nobj is None else nobj - 1
+    w = [rng.choice(["1", "2", "1/2"])] + [rng.choice(["1", "-1"]) for _ in range(extra)]
     hi = rng.choice([1, 2, 3, 5, 9])
     vals = []
     for _ in range(n):
         v = [rng.choice(NEAR_WHEEL) if near else str(mult * rng.randint(1, hi))]
-        if two:
+        for _e in range(extra):
             v.append(str(rng.randint(0, 2)))
         vals.append(v)
     return w, vals
@@ -740,8 +782,10 @@ def gen_exhaustive(tier):
                     yield {"op": op, "w": wt, "vals": v, "k": 2, "seed": n, "exh": 1}
 
 
-def make_case(rng, op, flavour=None):
-    """one structured random case for `op`; flavour None | "near" | "neg" | "attr" | "alias" """
+def make_case(rng, op, flavour=None, n=None, nobj=None):
+    """one structured random case for `op`; flavour None | "near" | "neg" | "attr" | "alias" | "genome" | "large";
+    `n` / `nobj` fix the population size / the number of objectives (histories)"""
+    fix_n, fix_nobj = n, nobj
     k = rng.randint(0, 15)
     seed = rng.randrange(1 << 30)
     near = flavour == "near"
@@ -749,16 +793,16 @@ def make_case(rng, op, flavour=None):
     pf = flavour if flavour in ("near", "neg", "large") else None
     d = None
     if op in ("best", "worst", "random"):
-        w, vals = rand_pop(rng, flavour=pf)
+        w, vals = rand_pop(rng, n=fix_n, nobj=fix_nobj, flavour=pf)
         if large and op != "random":
             n = len(vals)
             k = rng.choice([1, 2, 3, 7, n // 8, n // 4 - 1, n // 4, n // 4 + 1, n // 2, n - 1, n, n + 3])
         d = {"op": op, "w": w, "vals": vals, "k": k, "seed": seed}
     elif op == "tourn":
-        w, vals = rand_pop(rng, flavour=pf)
+        w, vals = rand_pop(rng, n=fix_n, nobj=fix_nobj, flavour=pf)
         d = {"op": op, "w": w, "vals": vals, "k": k, "ts": rng.randint(1, 5), "seed": seed}
     elif op == "roulette":
-        w, vals = rand_wheel(rng, near=near, large=large)
+        w, vals = rand_wheel(rng, n=fix_n, near=near, large=large, nobj=fix_nobj)
         js = [rng.choice([0, 1023, rng.randrange(1024), rng.randrange(1024)]) for _ in range(k)]
         d = {"op": op, "w": w, "vals": vals, "k": k, "j": js}
         if rng.random() < 0.12:
@@ -777,20 +821,20 @@ def make_case(rng, op, flavour=None):
         kind = rng.random()
         if near:
             k = rng.choice([0, 1, 2, 4, 8])
-            w, vals = rand_wheel(rng, near=True)
+            w, vals = rand_wheel(rng, n=fix_n, near=True, nobj=fix_nobj)
             d = {"op": op, "w": w, "vals": vals, "k": k, "j": rng.choice([rng.randrange(1, 1024), 512, 1, 1023]),
                  "exact": True}
         elif kind < 0.75 or k == 0:
             m = odd_part(k) if k else 1
             if rng.random() < 0.3 and k:
                 m = k
-            w, vals = rand_wheel(rng, mult=m, large=large)
+            w, vals = rand_wheel(rng, n=fix_n, mult=m, large=large, nobj=fix_nobj)
             # r = j/1024; r = 0 is the F13 boundary draw (model-vs-implementation only)
             j = rng.choice([rng.randrange(1, 1024), rng.randrange(1, 1024), 512, 1, 1023,
                             0 if rng.random() < 0.5 else 256])
             d = {"op": op, "w": w, "vals": vals, "k": k, "j": j, "exact": True}
         else:
-            w, vals = rand_wheel(rng)
+            w, vals = rand_wheel(rng, n=fix_n, nobj=fix_nobj)
             s = sum(int(v[0]) for v in vals)
             exact = Fr(s / float(k)) == Fr(s, k)
             if exact:
@@ -798,7 +842,7 @@ def make_case(rng, op, flavour=None):
             else:
                 d = {"op": op, "w": w, "vals": vals, "k": k, "seed": seed, "exact": False}
     elif op == "dtourn":
-        w, vals = rand_pop(rng, flavour=pf)
+        w, vals = rand_pop(rng, n=fix_n, nobj=fix_nobj, flavour=pf)
         n = len(vals)
         sizes = [rng.choice([1, 1, 2, 3, 5]) for _ in range(n)]
         d = {"op": op, "w": w, "vals": vals, "k": k, "fs": rng.randint(1, 5), "ps": rng.choice(PS),
@@ -806,13 +850,14 @@ def make_case(rng, op, flavour=None):
         if rng.random() < 0.25:
             d["rforce"] = [rng.choice(["0", "1/2", "prob", None]) for _ in range(3)]
     elif op in ("lex", "epslex", "autolex"):
-        w, vals = rand_pop(rng, nobj=rng.choice([1, 2, 2, 3, 3, 4]), flavour=pf, arith=op != "lex")
+        nob = rng.choice([1, 2, 2, 3, 3, 4])
+        w, vals = rand_pop(rng, n=fix_n, nobj=fix_nobj or nob, flavour=pf, arith=op != "lex")
         d = {"op": op, "w": w, "vals": vals, "k": k, "seed": seed}
         if op == "epslex":
             d["eps"] = rng.choice(EPS)
     elif op == "dcd":
-        w, vals = rand_pop(rng, n=None if large else rng.choice([1, 3, 4, 4, 4, 5, 6, 7, 8, 8, 8, 9, 10, 12, 12, 12]),
-                           nobj=rng.choice([1, 2, 2, 3]), flavour=pf)
+        nn, nob = rng.choice([1, 3, 4, 4, 4, 5, 6, 7, 8, 8, 8, 9, 10, 12, 12, 12]), rng.choice([1, 2, 2, 3])
+        w, vals = rand_pop(rng, n=fix_n or (None if large else nn), nobj=fix_nobj or nob, flavour=pf)
         n = len(vals)
         cd = [rng.choice(["0", "0", "1/2", "1", "5/2", "inf"] + ([NEAR_CMP[2], NEAR_CMP[4]] if near else []))
               for _ in range(n)]
@@ -849,7 +894,28 @@ def make_case(rng, op, flavour=None):
                         d[key][i] = d[key][j] if key != "vals" else list(d[key][j])
         if alias != list(range(n)):
             d["alias"] = alias
+            fix_wheel_after_alias(rng, d, seed)
     return d
+
+
+def fix_wheel_after_alias(rng, d, seed):
+    """listing an object at further positions changes the wheel total: keep the arithmetic of the forced draws exact"""
+    op, k = d["op"], d["k"]
+    if op not in ("roulette", "sus") or d.get("near"):
+        return
+    s = sum(Fr(v[0]) for v in d["vals"])
+    if op == "roulette" and not d.get("sweep"):
+        den = d.get("den", 1024)
+        if any(Fr(float(Fr(j, den))) != Fr(j, den) or Fr(float(Fr(j, den)) * float(s)) != Fr(j, den) * s for j in d["j"]):
+            d["den"] = 1024
+            d["j"] = [rng.randrange(1024) for _ in range(k)]
+    if op == "sus" and k > 0 and "j" in d:
+        dist = float(s) / float(k)
+        x = Fr(dist) * Fr(d["j"], d.get("den", 1024))
+        if Fr(dist) != s / k or Fr(float(x)) != x:
+            del d["j"]
+            d["seed"] = seed
+            d["exact"] = False
 
 
 RANDOM_OPS = ["best", "worst", "random", "tourn", "tourn", "roulette", "roulette", "sus", "sus", "sus", "dtourn",
@@ -858,7 +924,7 @@ RANDOM_OPS = ["best", "worst", "random", "tourn", "tourn", "roulette", "roulette
 FLAVOURS = [
     ("near", ["best", "worst", "tourn", "dtourn", "lex", "epslex", "autolex", "dcd", "roulette", "sus"]),
     ("attr", ["best", "worst", "tourn", "roulette", "sus", "dtourn"]),        # every operator taking fit_attr
-    ("alias", ["best", "worst", "random", "tourn", "dtourn", "lex", "epslex", "autolex", "dcd"]),
+    ("alias", ["best", "worst", "random", "tourn", "roulette", "sus", "dtourn", "lex", "epslex", "autolex", "dcd"]),
     ("neg", ["best", "worst", "tourn", "dtourn", "lex", "epslex", "autolex", "dcd"]),
     ("genome", ["tourn", "best", "worst", "random", "dtourn", "roulette", "sus", "lex", "epslex", "autolex", "dcd"]),
 ]
@@ -889,9 +955,277 @@ def gen_random(tier, rng, mult):
         yield make_case(rng, RANDOM_OPS[it % len(RANDOM_OPS)])
 
 
+# ------------------------------------------------------------------------------------------
+# histories: several selector calls in one process over a family of fitness classes
+# ------------------------------------------------------------------------------------------
+
+_family_counter = [0]
+
+
+def resolved_weights(fam):
+    """the weights every class of the family resolves to (own entry, else the parent's), as Python's MRO does"""
+    out = []
+    for c in fam:
+        out.append(list(c["w"]) if c["w"] is not None else list(out[c["parent"]]))
+    return out
+
+
+def build_family(fam):
+    """creates the classes of one history (fresh ones for every case, so that what was used first is decided by
+    the history alone): `how` = creator.create / a class statement / type()"""
+    _family_counter[0] += 1
+    classes, created = [], []
+    for i, c in enumerate(fam):
+        parent = base.Fitness if c["parent"] is None else classes[c["parent"]]
+        name = "C06Fam%d_%d" % (_family_counter[0], i)
+        ns = {} if c["w"] is None else {"weights": tuple(float(Fr(x)) for x in c["w"])}
+        if c["how"] == "creator" or type(parent) is not type:
+            creator.create(name, parent, **ns)
+            created.append(name)
+            cls = getattr(creator, name)
+        elif c["how"] == "type":
+            cls = type(name, (parent,), dict(ns))
+        elif ns:
+            class cls(parent):
+                weights = ns["weights"]
+        else:
+            class cls(parent):
+                pass
+        classes.append(cls)
+    return classes, created
+
+
+def step_kind(op):
+    return "wheel" if op in ("roulette", "sus") else "dcd" if op == "dcd" else "plain"
+
+
+def evaluate_hist(d):
+    fam, steps = d["fam"], d["steps"]
+    res_w = resolved_weights(fam)
+    classes, created = build_family(fam)
+    try:
+        return _evaluate_hist(d, fam, steps, res_w, classes)
+    finally:
+        for nm in created:
+            if hasattr(creator, nm):
+                delattr(creator, nm)
+
+
+def _evaluate_hist(d, fam, steps, res_w, classes):
+    for cls, rw in zip(classes, res_w):
+        if tuple(cls.weights) != tuple(float(Fr(x)) for x in rw):
+            raise ValueError("harness: class weights do not resolve as described")
+    segs = ["class %s %s" % ("inh" if c["w"] is None else slist(Fr(x) for x in c["w"]),
+                             "root" if c["parent"] is None else c["parent"]) for c in fam]
+    tagbits = d.get("tag", "hist")
+    slots = {}
+    answers = []
+    orc = None
+    nontrivial = False
+    for si, st in enumerate(steps):
+        op, k = st["op"], st["k"]
+        F = classes[st["cls"]]
+        st = dict(st)
+        st["w"] = res_w[st["cls"]]
+        w = [Fr(x) for x in st["w"]]
+        attr = attr_of(st)
+        if st["pop"] in slots:
+            pop = slots[st["pop"]]
+            if st.get("reval"):
+                # the caller re-evaluates the individuals (same objects, new fitness values)
+                for i, ind in enumerate(pop):
+                    if canon_map(st)[i] == i:
+                        getattr(ind, attr).values = tuple(float(Fr(v)) for v in st["vals"][i])
+        else:
+            _, pop = build_pop(st, F=F)
+            slots[st["pop"]] = pop
+        n = len(pop)
+        where = "call #%d of the history (%s, k=%d): " % (si + 1, op, k)
+        if not in_quantifier(st, n):
+            raise ValueError("harness: history step outside the quantifier")
+        before = snapshot(pop)
+        order_before = [id(x) for x in pop]
+        forced = forced_tape_for(st, pop, w)
+        res, err, tape_err, draws = run_impl(st, pop, forced)
+        if tape_err is not None and forced is not None:
+            res, err, tape_err2, draws = run_impl(st, pop, None)
+        if [id(x) for x in pop] != order_before or snapshot(pop) != before:
+            return Case(d, [], [], where + "the population or one of its individuals was modified", tag=tagbits)
+        if err is not None:
+            return Case(d, [], [], where + "implementation raised " + err, tag=tagbits + "/exception")
+        index_of = {}
+        for i, x in enumerate(pop):
+            index_of.setdefault(id(x), i)
+        idx = [index_of.get(id(x)) for x in res]
+        o = oracle(st, w, pop, res, idx, draws, tape_ok=tape_err is None)
+        if tape_err is not None and (o is None or o.startswith("TAPE:")):
+            o = "TAPE: " + tape_err
+        if o is not None:
+            if o.startswith("TAPE:"):
+                return Case(d, [], [], "TAPE: " + where + o[5:], tag=tagbits + "/tape")
+            return Case(d, [], [], where + o, tag=tagbits)
+        try:
+            segs.append(" ".join(["call", str(st["cls"])] + req_tokens(st, w, pop, draws, wtok="@")))
+        except ValueError as e:
+            return Case(d, [], [], "TAPE: " + where + str(e), tag=tagbits + "/tape")
+        answers.append(",".join(str(i) for i in idx) or "-")
+        nontrivial = nontrivial or (k >= 1 and n >= 2)
+    return Case(d, ["C06 hist " + " | ".join(segs)], ["|".join(answers) + " 0"], orc, tag=tagbits, nontrivial=nontrivial)
+
+
+HIST_GROUPS = [("lexicase", ["lex", "epslex", "autolex"]), ("best-worst", ["best", "worst"]),
+               ("tournaments", ["tourn", "dtourn"]), ("wheel", ["roulette", "sus"]), ("dcd", ["dcd"]),
+               ("lexicase", ["lex", "lex", "epslex"]),
+               ("mixed", ["best", "worst", "random", "tourn", "dtourn", "lex", "epslex", "autolex", "dcd", "roulette", "sus"])]
+ATTR_OPS = ("best", "worst", "tourn", "roulette", "sus", "dtourn")
+
+
+def neg_w(x):
+    return sfr(-Fr(x))
+
+
+def make_family(rng, nobj, positive_first, order):
+    """2..4 classes: a base class and classes derived from it (or from one another), weights overridden (other signs
+    in some coordinates) or inherited; `order` = which of base / derived the history uses first"""
+    ncls = rng.choice([2, 2, 3, 4])
+    fam = []
+    for i in range(ncls):
+        how = rng.choice(["creator", "creator", "class", "type"])
+        if i == 0:
+            w = [rng.choice(WEIGHTS) for _ in range(nobj)]
+            parent = None
+        else:
+            parent = rng.choice([0, 0, i - 1, rng.randrange(i), None])
+            if parent is not None and rng.random() < 0.25:
+                w = None                                              # inherited
+            else:
+                src = resolved_weights(fam)[parent if parent is not None else 0]
+                w = [neg_w(x) if rng.random() < 0.6 else rng.choice([x, x, rng.choice(WEIGHTS)]) for x in src]
+        if w is not None and positive_first and Fr(w[0]) <= 0:
+            w[0] = neg_w(w[0])
+        if parent is not None and fam[parent]["how"] == "creator":
+            how = "creator"          # a class made by creator.create can only be derived from through creator.create
+        fam.append({"w": w, "parent": parent, "how": how})
+    return fam
+
+
+def make_step(rng, op, cls, nobj, n=None):
+    for _ in range(200):
+        fl = rng.choice([None, None, "alias", "attr" if op in ATTR_OPS else None, "neg" if step_kind(op) != "wheel" else None])
+        st = make_case(rng, op, fl, n=n, nobj=nobj)
+        st.pop("rforce", None)
+        if not st.get("exact", True) or st.get("edge"):
+            continue
+        st["cls"] = cls
+        if not in_quantifier(st, len(st["vals"])):
+            continue
+        return st
+    raise ValueError("harness: no admissible history step for " + op)
+
+
+def make_history(rng, it):
+    gname, ops = HIST_GROUPS[it % len(HIST_GROUPS)]
+    order = (it // len(HIST_GROUPS)) % 2            # 0: a base class is used first, 1: a derived class first
+    nobj = rng.choice([1, 2, 2, 3, 3, 4])
+    wheel = any(step_kind(o) == "wheel" for o in ops)
+    fam = make_family(rng, nobj, wheel, order)
+    derived = [i for i, c in enumerate(fam) if c["parent"] is not None] or [len(fam) - 1]
+    nsteps = rng.choice([2, 3, 4, 5, 6])
+    steps = []
+    for si in range(nsteps):
+        op = rng.choice(ops)
+        if si == 0:
+            cls = 0 if order == 0 else rng.choice(derived)
+        elif si == 1:
+            cls = rng.choice(derived) if order == 0 else fam[steps[0]["cls"]]["parent"] or 0
+        else:
+            cls = rng.randrange(len(fam))
+        # (an operator without fit_attr reads `fitness`: it is not given a population whose `fitness` is the decoy)
+        same = [s0 for s0 in steps if step_kind(s0["op"]) == step_kind(op) and (op in ATTR_OPS or "attr" not in s0)]
+        if same and rng.random() < 0.45:
+            # the same population objects again: another selector / k / fit_attr, possibly re-evaluated
+            src = rng.choice(same)
+            st = make_step(rng, op, src["cls"], nobj, n=len(src["vals"]))
+            for key in ("sizes", "cd", "alias", "cont", "genome"):
+                st.pop(key, None)
+                if key in src:
+                    st[key] = src[key]
+            st["pop"] = src["pop"]
+            if "attr" in src:
+                st["attr"] = rng.choice(["other", "fitness"])
+            else:
+                st.pop("attr", None)
+            if op == "dcd":
+                ks = [x for x in (0, 4, 8, 12) if x <= len(src["vals"])]
+                st["k"] = rng.choice(ks)
+            if rng.random() < 0.5 and st.get("attr", "fitness") == src.get("attr", "fitness"):
+                st["reval"] = 1
+                al = st.get("alias")
+                if al:
+                    st["vals"] = [list(st["vals"][al[i]]) for i in range(len(al))]
+            else:
+                st["vals"] = [list(v) for v in src["vals"]]
+            if op == "roulette":
+                st.pop("sweep", None)
+                st["den"] = 1024
+                st["j"] = [rng.choice([0, 1023, rng.randrange(1024)]) for _ in range(st["k"])]
+            if op == "sus":
+                st["k"] = rng.choice([0, 1, 2, 4, 8, 16])
+                st["j"] = rng.choice([rng.randrange(1, 1024), 512, 1, 1023])
+                st["exact"] = True
+        else:
+            st = make_step(rng, op, cls, nobj)
+            st["pop"] = si
+        steps.append(st)
+    return {"op": "hist", "fam": fam, "steps": steps, "k": sum(s0["k"] for s0 in steps),
+            "tag": "hist/%s/%s-first" % (gname, "base" if order == 0 else "derived")}
+
+
+def gen_histories(tier, rng, mult):
+    total = (14000 if tier == "thorough" else 700) * mult
+    for it in range(total):
+        yield make_history(rng, it)
+
+
+def gen_pools(tier, rng, mult):
+    """mating pools: a population drawn with replacement from distinct individuals (what selTournament / selRandom /
+    selRoulette hand to the next operator) - every selector, the wheels first and most often"""
+    thorough = tier == "thorough"
+    # every wheel of n <= 3 positions over {1,2,3} with every way of listing an object again, swept / sampled
+    for n in (2, 3):
+        for alias in itertools.product(*[range(i + 1) for i in range(n)]):
+            alias = [alias[a] if alias[alias[a]] == alias[a] else alias[alias[a]] for a in alias]
+            if alias == list(range(n)) or any(alias[alias[i]] != alias[i] for i in range(n)):
+                continue
+            for base_vals in itertools.product(["1", "2", "3"], repeat=n):
+                vals = [[base_vals[alias[i]]] for i in range(n)]
+                if [v[0] for v in vals] != list(base_vals):
+                    continue
+                yield {"op": "roulette", "w": ["1"], "vals": vals, "k": 64, "j": list(range(64)), "den": 64, "sweep": 1,
+                       "exh": 1, "alias": list(alias)}
+                for k in (1, 2, 3, 4, 5, 8):
+                    m = odd_part(k)
+                    vv = [[str(int(v[0]) * m)] for v in vals]
+                    for j in ((1, 2, 3, 4, 5, 6, 7) if thorough else (1, 4, 7)):
+                        yield {"op": "sus", "w": ["1"], "vals": vv, "k": k, "j": j, "den": 8, "exh": 1, "alias": list(alias)}
+    ops = ["roulette", "sus", "roulette", "sus", "best", "worst", "tourn", "dtourn", "lex", "epslex", "autolex", "dcd", "random"]
+    total = (12000 if thorough else 780) * mult
+    for it in range(total):
+        op = ops[it % len(ops)]
+        for _ in range(50):
+            d = make_case(rng, op, "alias")
+            if "alias" in d:
+                break
+        yield d
+
+
 def generate(tier, rng, mult):
     # which streams run never depends on the seed; every stream covers every operator it applies to
     for d in gen_exhaustive(tier):
+        yield d
+    for d in gen_pools(tier, rng, mult):
+        yield d
+    for d in gen_histories(tier, rng, mult):
         yield d
     for d in gen_large(tier, rng, mult):
         yield d
@@ -902,6 +1236,20 @@ def generate(tier, rng, mult):
 
 
 def shrink(d):
+    if d["op"] == "hist":
+        steps = d["steps"]
+        if len(steps) > 1:
+            for i in range(len(steps)):
+                e = dict(d)
+                e["steps"] = steps[:i] + steps[i + 1:]
+                e["k"] = sum(s0["k"] for s0 in e["steps"])
+                yield e
+        last = len(d["fam"]) - 1
+        if last > 0 and not any(s0["cls"] == last for s0 in steps) and not any(c["parent"] == last for c in d["fam"]):
+            e = dict(d)
+            e["fam"] = d["fam"][:-1]
+            yield e
+        return
     n = len(d["vals"])
     if n > 1 and "forced" not in d and "alias" not in d and "attr" not in d:
         for i in range(n):
